@@ -19,7 +19,7 @@ reachable from the roots survives, nothing changes without a cycle, every
 changed slot lay on a cycle and now points at a Box of its former target.
 
 Env switches (testing only): C07_SKIP_COQ=1 skips the Props/C07 build+audit,
-C07_EMULATE=unbox|extrabox|model-order|first-child-only emulates a mutation.
+C07_EMULATE=unbox|extrabox|model-order|first-child-only|root-range emulates a mutation.
 """
 import glob
 import itertools
@@ -825,6 +825,9 @@ def known_match(ctx, v):
                 if (w is not None and json.dumps(w, sort_keys=True) == json.dumps(steps, sort_keys=True)) \
                         or name_collision(steps):
                     return f
+        elif cls == "pure-newtype-alias-cycle-does-not-compile":
+            if v.get("kind") == cls:      # raised only for E0055/E0119 in a module with a newtype/Box-only cycle
+                return f
         elif cls == "containment-through-native-type-parameter":
             if v.get("kind") == cls:      # raised only for cycles that need a native type-parameter edge
                 return f
@@ -1008,6 +1011,267 @@ def gen_schema_case(r, idx):
     cyc = find_cycle(ag, range(total))
     return {"steps": steps, "mode": mode, "titled": titled, "dag": dag,
             "abs": {"defs": defs, "by_value_cycle": cyc is not None}}
+
+
+ROOT_TITLES = ["RootNode", "TopList", "DocTree", "MainChain", "OuterDoc"]
+SELF_EDGES = ["required", "required", "optional", "optional", "nullable-oneof", "nullable-anyof", "tuple", "fixarr",
+              "vec", "map", "set"]
+
+
+def gen_titled_root_doc(r, title, names):
+    """One root document whose TITLED root refers to itself through {"$ref": "#"}.
+    names: definition names available (never mention the root unless shape == via-def).
+    returns (doc, abstract defs list, by_value_cycle)"""
+    R = {"$ref": "#"}
+    shape = r.choice(["struct", "struct", "struct", "enum", "newtype", "via-def", "via-def"])
+    n = len(names)
+    root_ix = n
+    via = None
+    if shape == "via-def":
+        if n == 0:
+            shape = "struct"
+        else:
+            via = r.randrange(n)
+    defs, absd = {}, []
+    for i in range(n):
+        props, optional, edges = {"k": {"type": "integer"}}, set(), []
+        if i > 0 and r.random() < 0.5:
+            ek = r.choice(["required", "optional", "vec", "tuple"])
+            props["p0"] = edge_schema(ek, ref_of(names[i - 1]))
+            edges.append([i - 1, ek])
+            if ek == "optional":
+                optional.add("p0")
+        if r.random() < 0.25:           # a definition-level self loop: cut inside any range that holds the definitions
+            props["s"] = ref_of(names[i])
+            optional.add("s")
+            edges.append([i, "optional"])
+        if via == i:
+            ek = r.choice(["required", "optional", "nullable-oneof", "tuple", "fixarr", "vec"])
+            props["back"] = edge_schema(ek, R)
+            edges.append([root_ix, ek])
+            if ek == "optional":
+                optional.add("back")
+        defs[names[i]] = obj_schema(props, optional)
+        absd.append({"name": names[i], "kind": "struct", "edges": edges})
+    redges = []
+    if shape == "newtype":
+        ek = r.choice(["nullable-oneof", "tuple", "fixarr", "vec", "map"])
+        root = edge_schema(ek, R)
+        redges.append([root_ix, ek])
+    elif shape == "enum":
+        variants = []
+        for q in range(r.randint(1, 3)):
+            x = r.random()
+            if x < 0.4:
+                ek = r.choice(["required", "nullable-oneof", "tuple", "fixarr", "vec", "map"])
+                payload = edge_schema(ek, R)
+                redges.append([root_ix, ek])
+            elif x < 0.7:
+                m = r.randint(1, 2)
+                payload = {"type": "array", "items": [R] * m + [{"type": "integer"}], "minItems": m + 1, "maxItems": m + 1}
+                redges += [[root_ix, "variant-tuple"]] * m
+            else:
+                ek = r.choice(["required", "optional", "nullable-anyof", "vec"])
+                payload = obj_schema({"f0": edge_schema(ek, R), "f1": {"type": "string"}}, {"f0"} if ek == "optional" else set())
+                redges.append([root_ix, ek])
+            variants.append({"type": "object", "properties": {"v%d" % q: payload}, "required": ["v%d" % q],
+                             "additionalProperties": False})
+        variants.insert(r.randint(0, len(variants)), {"type": "string", "enum": ["w0"]})
+        root = {"oneOf": variants}
+    else:
+        props, optional = {"value": {"type": "integer"}}, set()
+        k = 0
+        if shape == "via-def":
+            ek = r.choice(["required", "optional", "nullable-oneof", "tuple", "fixarr"])
+            props["p0"] = edge_schema(ek, ref_of(names[via]))
+            redges.append([via, ek])
+            if ek == "optional":
+                optional.add("p0")
+            k = 1
+        for q in range(r.randint(0 if shape == "via-def" else 1, 2)):
+            ek = r.choice(SELF_EDGES)
+            props["p%d" % (k + q)] = edge_schema(ek, R)
+            redges.append([root_ix, ek])
+            if ek == "optional":
+                optional.add("p%d" % (k + q))
+        for i in range(n):
+            if i != via and r.random() < 0.3:
+                props["d%d" % i] = ref_of(names[i])
+                redges.append([i, "required"])
+        root = obj_schema(props, optional)
+    absd.append({"name": None, "kind": "root-" + shape, "edges": redges})
+    doc = dict(root)
+    doc["title"] = title
+    if defs or r.random() < 0.5:
+        doc["definitions"] = defs
+    ag = {i: ("S", tuple(j for (j, ek) in d["edges"] if ek in BYVALUE)) for i, d in enumerate(absd)}
+    return doc, absd, find_cycle(ag, range(len(absd))) is not None
+
+
+def gen_titled_root_case(r, idx):
+    """K3 stream: titled root schemas with {"$ref": "#"} self references (direct field, Option, nullable, tuple, fixed
+    array, enum variants, newtype, through one definition and back), with and without `definitions`, optionally
+    several add_root_schema / add_ref_types calls in one space."""
+    names = r.sample(NAMES, r.randint(0, 2))
+    titles = r.sample(ROOT_TITLES, 2)
+    doc, absd, cyc = gen_titled_root_doc(r, titles[0], names)
+    steps = [{"op": "root", "doc": doc}]
+    mode = "titled-root"
+    x = r.random()
+    if x < 0.2:
+        other = [nm for nm in NAMES if nm not in names]
+        nm = r.choice(other)
+        rec = r.random() < 0.6
+        b = {nm: obj_schema({"k": {"type": "integer"}, **({"s": ref_of(nm)} if rec else {})}, {"s"})}
+        absd = absd + [{"name": nm, "kind": "struct", "edges": [[len(absd), "optional"]] if rec else []}]
+        cyc = cyc or rec
+        steps.insert(r.choice([0, 1]), {"op": "refs", "defs": b})
+        mode += "+refs"
+    elif x < 0.4:
+        names2 = r.sample([nm for nm in NAMES if nm not in names], r.randint(0, 1))
+        doc2, absd2, cyc2 = gen_titled_root_doc(r, titles[1], names2)
+        off = len(absd)
+        absd = absd + [{"name": d["name"], "kind": d["kind"], "edges": [[j + off, ek] for (j, ek) in d["edges"]]} for d in absd2]
+        cyc = cyc or cyc2
+        steps.append({"op": "root", "doc": doc2})
+        mode += "+root"
+    return {"steps": steps, "mode": mode, "titled": True, "dag": False,
+            "abs": {"defs": absd, "by_value_cycle": cyc}}
+
+
+# ---------------------------------------------------------------------------
+# rustc cross-check (E0072) of a sample of generated modules
+# ---------------------------------------------------------------------------
+
+def rustc_crosscheck(ctx, picks, expected_e0072=()):
+    """picks: [(label, case)] -> (failures, info).  Compiles the generated module of every accepted pick in one scratch
+    crate; an E0072 (recursive type has infinite size) in a module is a property violation with that document."""
+    info = {"picked": len(picks)}
+    res = run_c07([{"op": "gen", "settings": c.get("settings", {}), "steps": c["steps"], "code": True, "pre_cycles": False}
+                   for (_, c) in picks], chunk=40)
+    d = os.path.join(vlib.WORK, "c07_rustc")
+    src = os.path.join(d, "src")
+    os.makedirs(src, exist_ok=True)
+    cargo = ('[package]\nname = "c07_rustc"\nversion = "0.1.0"\nedition = "2021"\n[workspace]\n[dependencies]\n'
+             'serde = { version = "1.0.219", features = ["derive"] }\nserde_json = "1.0.140"\n')
+    for (path, txt) in ((os.path.join(d, "Cargo.toml"), cargo),
+                        (os.path.join(d, "rust-toolchain.toml"), open(os.path.join(vlib.HARNESS, "rust-toolchain.toml")).read()),
+                        (os.path.join(d, "Cargo.lock.seed"), "")):
+        if path.endswith(".seed"):
+            continue
+        if not os.path.exists(path) or open(path).read() != txt:
+            open(path, "w").write(txt)
+    lock = os.path.join(d, "Cargo.lock")
+    if not os.path.exists(lock):
+        open(lock, "w").write(open(os.path.join(vlib.REPO, "Cargo.lock")).read())
+    for f in os.listdir(src):
+        os.unlink(os.path.join(src, f))
+    def deref_only_cycle(dump):
+        """a cycle made of newtype entries (transparent aliases with a Deref impl) and Box entries only"""
+        g = {}
+        for i, e in dump["entries"].items():
+            if e["kind"] == "newtype":
+                g[int(i)] = ("N", e["type_id"])
+            elif e["kind"] == "box":
+                g[int(i)] = ("N", e["id"])
+        g = {i: ("N", nd[1]) if nd[1] in g else ("L",) for i, nd in g.items()}
+        return find_cycle(g, sorted(g)) is not None
+
+    mods = {}
+    alias_cycle = set()
+    for i, ((label, c), r) in enumerate(zip(picks, res)):
+        if r.get("r") != "done" or not r.get("all_ok"):
+            continue
+        rd = r.get("render", {})
+        u = r.get("uses", {})
+        if rd.get("r") != "ok" or "code" not in rd or u.get("chrono") or u.get("uuid") or u.get("regress"):
+            continue
+        open(os.path.join(src, "m_%d.rs" % i), "w").write(rd["code"])
+        mods[i] = (label, c)
+        if deref_only_cycle(r["dump"]):
+            alias_cycle.add(i)
+    info["modules"] = len(mods)
+    failures, other, confirmed, other_samples = [], {}, [], []
+    live = dict(mods)
+    env = dict(vlib.ENV)
+    env["CARGO_TARGET_DIR"] = os.path.join(d, "target")
+    ran = False
+    for attempt in range(3):
+        open(os.path.join(src, "lib.rs"), "w").write(
+            "#![allow(warnings)]\n" + "".join("pub mod m_%d;\n" % i for i in sorted(live)))
+        rc, out, err = vlib.sh(["timeout", "900", "cargo", "check", "--offline", "--message-format=json"], cwd=d,
+                               timeout=960, env=env)
+        msgs = []
+        for line in out.splitlines():
+            try:
+                j = json.loads(line)
+            except ValueError:
+                continue
+            if j.get("reason") == "build-finished":
+                ran = True
+            if j.get("reason") == "compiler-message" and j.get("target", {}).get("name") == "c07_rustc":
+                m = j["message"]
+                if m.get("level") == "error" and m.get("spans"):
+                    msgs.append(m)
+        if not ran:
+            info["cargo_error"] = err[-1500:]
+            break
+        bad_other = set()
+        for m in msgs:
+            code = (m.get("code") or {}).get("code")
+            files = {sp["file_name"] for sp in m["spans"]}
+            for fn in files:
+                mm = re.search(r"m_(\d+)\.rs$", fn)
+                if not mm:
+                    continue
+                i = int(mm.group(1))
+                if i not in live:
+                    continue
+                label, c = live[i]
+                if code == "E0072":
+                    inp = {"steps": c["steps"]}
+                    if c.get("settings"):
+                        inp["settings"] = c["settings"]
+                    if label in expected_e0072:
+                        confirmed.append(label)
+                    else:
+                        failures.append({"kind": "rustc-E0072-infinite-size", "input": inp,
+                                         "observed": (m.get("rendered") or m.get("message", ""))[:900],
+                                         "expected": "the generated module compiles: every containment cycle passes "
+                                                     "through a Box", "size": 0, "note": label})
+                    bad_other.add(i)          # drop it before a re-run
+                elif code in ("E0055", "E0119") and i in alias_cycle:
+                    inp = {"steps": c["steps"]}
+                    if c.get("settings"):
+                        inp["settings"] = c["settings"]
+                    failures.append({"kind": "pure-newtype-alias-cycle-does-not-compile", "input": inp,
+                                     "observed": (m.get("rendered") or m.get("message", ""))[:600],
+                                     "expected": "the generated module compiles", "size": 0, "note": label})
+                    bad_other.add(i)
+                else:
+                    bump(other, str(code))
+                    if len(other_samples) < 6:
+                        other_samples.append({"module": label, "code": code, "message": m.get("message", "")[:200],
+                                              "steps": c["steps"]})
+                    bad_other.add(i)
+        if rc == 0 or not bad_other:
+            break
+        for i in bad_other:
+            live.pop(i, None)
+    info["ran"] = ran
+    info["other_error_codes_(not_C07)"] = other
+    info["other_error_samples"] = other_samples
+    info["modules_compiled_clean"] = len(live) if ran else 0
+    info["expected_E0072_confirmed"] = sorted(set(confirmed))
+    info["modules_with_newtype/Box-only_cycle"] = len(alias_cycle)
+    seen = set()
+    uniq = []
+    for f in failures:
+        k = json.dumps(f["input"], sort_keys=True)
+        if k not in seen:
+            seen.add(k)
+            uniq.append(f)
+    return uniq, info
 
 
 # ---------------------------------------------------------------------------
@@ -1215,6 +1479,8 @@ def run(ctx):
     # =====================================================================
     r3 = random.Random(ctx.seed * 104729 + 5)
     scases = list(corpus_k3) + [gen_schema_case(r3, i) for i in range(1500 if thorough else 150)]
+    r3t = random.Random(ctx.seed * 15485863 + 11)
+    scases += [gen_titled_root_case(r3t, i) for i in range(400 if thorough else 60)]
     sres = run_c07([{"op": "gen", "settings": sc.get("settings", {}), "steps": sc["steps"], "code": False, "pre_cycles": True}
                     for sc in scases], chunk=100)
     ctx.log("K3 implementation done:", len(scases), "schema histories")
@@ -1222,6 +1488,7 @@ def run(ctx):
     exprs = []
     finals = []     # indices of the schema histories that were accepted
     mode_dist, k3_ek, k3_dk = {}, {}, {}
+    range_bad = []
     for si, (sc, res) in enumerate(zip(scases, sres)):
         bump(mode_dist, sc["mode"])
         if res.get("r") != "done" or not res.get("all_ok") or "dump" not in res:
@@ -1241,12 +1508,32 @@ def run(ctx):
                              "expected": len(ref_steps), "size": 99})
             continue
         sc["_final"] = canon_space(res["dump"])
+        sc["_names"] = {int(i): (e.get("name") or e.get("type_name") or e["kind"]) for i, e in res["dump"]["entries"].items()}
         sc["_spec"] = spec_graph(res["dump"])
         spaces = [canon_space(p["space"]) for p in pre]
         snaps = []
         for k, p in enumerate(pre):
             in_g, in_next, bidx = spaces[k]
             lo, hi = p["base_id"], p["base_id"] + p["def_len"]
+            if EMULATE == "root-range" and k == len(pre) - 1 and ref_steps[k] == len(sc["steps"]) - 1 \
+                    and p["space"].get("ref_to_id", {}).get("#") == hi - 1 \
+                    and sc["steps"][ref_steps[k]].get("op", "root") == "root":
+                hi -= 1                     # the seeded change: the titled root's id lies outside the range
+                sc["_shrunk"] = True
+            # the reference types THIS call created (definitions + titled root), read off the document and the
+            # snapshot's ref_to_id -- independent of the range the Rust computed
+            st = sc["steps"][ref_steps[k]]
+            if st.get("op", "root") == "root":
+                want = ["#/" + nm for nm in (st["doc"].get("definitions") or {})]
+                if isinstance(st["doc"].get("title"), str):
+                    want.append("#")
+            else:
+                want = ["#/" + nm for nm in st["defs"]]
+            r2i = p["space"].get("ref_to_id", {})
+            miss = [(w, r2i.get(w)) for w in want if w not in r2i or not (lo <= r2i[w] < hi)]
+            if miss:
+                range_bad.append({"input": {"steps": sc["steps"]}, "snapshot": k, "range": [lo, hi],
+                                  "reference types outside the range": miss})
             if k + 1 < len(pre):
                 post_g, _, post_bidx = spaces[k + 1]
                 # next_id right after this break_cycles is known iff the next step is the next batch
@@ -1281,6 +1568,12 @@ def run(ctx):
         for k, (in_g, in_next, lo, hi, bidx, post_g, post_bidx, exact_next) in enumerate(sc["_snaps"]):
             n_snap += 1
             m = parse_model(mres[0][k], rev) if mres else None
+            if sc.get("_shrunk") and k == len(sc["_snaps"]) - 1 and m and m["r"] == "ok":
+                # emulated mutation: what the code would leave behind had it used the shrunken range
+                post_g, post_bidx, exact_next = dict(m["g"]), dict(m["bidx"]), m["next"]
+                fin_g = dict(m["g"])
+                fin_tampered = True
+                n_tampered += 1
             bound = exact_next
             if bound is None:
                 # ids were allocated by a later add_type: the state right after break_cycles ends at the model's next
@@ -1313,7 +1606,9 @@ def run(ctx):
         # oracles on the final dump
         cyc = find_cycle(fin_g, sorted(fin_g))
         if cyc is not None:
-            failures.append({"kind": "final-ir-has-by-value-cycle", "input": inp, "observed": "->".join(map(str, cyc)),
+            failures.append({"kind": "final-ir-has-by-value-cycle", "input": inp,
+                             "observed": "by-value cycle " + " -> ".join(
+                                 "%s(#%d)" % (sc["_names"].get(i, "?"), i) for i in cyc),
                              "expected": "whole by-value graph of the final type space acyclic", "size": size,
                              "final": show_graph(fin_g), "note": sc.get("note")})
         elif not fin_tampered:
@@ -1329,6 +1624,11 @@ def run(ctx):
             # check_case prints the proven checker on the code's relation and on the conservative SPEC relation
             mc = re.match(r"^acyclic=([01])(?: spec_acyclic=([01]))?$", mres[1])
             my_spec = find_cycle(spec_conservative(fin_g), sorted(fin_g)) is None
+            if cyc is None and not (mc and mc.group(1) == "1"):
+                # the Coq-evaluated validator decides the property on the final IR, whatever range the Rust chose
+                failures.append({"kind": "final-ir-cycle-by-proven-checker", "input": inp, "observed": mres[1],
+                                 "expected": "acyclic_check (Coq; C07_acyclic_check_sound) accepts the whole final type space",
+                                 "size": size, "final": show_graph(fin_g), "note": sc.get("note")})
             if not mc or mc.group(1) != "1" or (mc.group(2) is not None and (mc.group(2) == "1") != my_spec):
                 chk3.append({"input": inp, "check_case": mres[1], "dfs_spec_acyclic": my_spec, "final": show_graph(fin_g)})
         boxes = [i for i, nd in fin_g.items() if nd[0] == "B"]
@@ -1354,6 +1654,34 @@ def run(ctx):
                    not chk3, json.dumps(chk3[:2]))
     else:
         ctx.oblige("correspondence K3 (model could not be evaluated)", False, "")
+    ctx.oblige("K3: the range handed to break_cycles covers every reference type the call created (all definitions and "
+               "the titled root; lib.rs add_ref_types_impl/add_root_schema), %d calls" % n_snap, not range_bad,
+               json.dumps(range_bad[:2]))
+    ctx.coverage["K3_range_misses"] = len(range_bad)
+
+    # ---- rustc cross-check (E0072) on a sample of the real generated modules
+    if not EMULATE or EMULATE == "compile-only":
+        r3c = random.Random(ctx.seed * 7919 + 3)
+        cyc_cases = [si for si in finals if scases[si]["mode"] not in ("corpus",) and not scases[si].get("titled")
+                     and scases[si]["abs"].get("by_value_cycle")]
+        r3c.shuffle(cyc_cases)
+        titled_cases = [si for si in finals if scases[si].get("titled") and scases[si]["mode"] != "corpus"]
+        r3c.shuffle(titled_cases)
+        pick_ix = [si for si in finals if scases[si]["mode"] == "corpus"] \
+            + titled_cases[:(150 if thorough else 40)] + cyc_cases[:(150 if thorough else 30)]
+        picks = [(scases[si].get("note") or "%s#%d" % (scases[si]["mode"], si), scases[si]) for si in pick_ix]
+        expect = tuple(lbl for (lbl, c) in picks if "finding_c07_2" in lbl)
+        try:
+            rfail, rinfo = rustc_crosscheck(ctx, picks, expect)
+        except Exception as e:  # noqa
+            rfail, rinfo = [], {"ran": False, "exception": repr(e)}
+        ctx.coverage["rustc_crosscheck"] = rinfo
+        ctx.oblige("rustc cross-check ran: cargo check of %d generated modules (%d compiled clean)" % (
+            rinfo.get("modules", 0), rinfo.get("modules_compiled_clean", 0)), bool(rinfo.get("ran")),
+            json.dumps(rinfo)[:1500])
+        failures.extend(rfail)
+        ctx.evaluations += rinfo.get("modules", 0)
+        ctx.log("rustc cross-check:", json.dumps(rinfo)[:400])
     ctx.oblige("K3: generator keeps rejected schema histories a small fraction (%d of %d skipped)" % (len(skipped), n_k3),
                len(skipped) * 5 <= n_k3, json.dumps(skip_reasons))
     ctx.coverage.update({
@@ -1370,6 +1698,10 @@ def run(ctx):
                  "partial ranges; K3: schema histories generated from an abstract definition graph (struct / alias / "
                  "wrapper newtype / externally tagged enum / untagged enum; required, optional, nullable oneOf/anyOf, "
                  "tuple, fixed array, vec, set, map edges; root docs, titled roots with $ref '#', add_ref_types, two "
+                 "batches; a dedicated stream of TITLED self-referential roots ({$ref:#} as direct/optional/nullable/tuple/"
+                 "fixed-array field, inside enum variants, as newtype, through one definition and back, with/without "
+                 "`definitions`, several add_root_schema/add_ref_types calls in one space); a sample of real modules is "
+                 "compiled (rustc E0072 cross-check); two "
                  "batches, trailing add_type); the random schema stream is free of finding C07-1's class by construction: "
                  "definition names come from a fixed list of single words, property/variant names are p<i>/f<i>/v<i>/x<i>/v "
                  "and no inline named object is generated, so no derived name parent+Pascal(prop) can equal a definition's "
